@@ -35,6 +35,11 @@ def _ctx_params(ctx):
     if name in ('IEEEContext',):
         mv = ctx.maxval()
         return ctx.pmax, ctx.nmin, ctx.rm.name, True, (int(mv.c), int(mv.exp))
+    if name == 'FixedContext' and ctx.signed:
+        # two's complement: no negative zero; magnitudes up to the positive maximum are modelled (the one extra negative value is
+        # outside the summary: an obligation fails there)
+        mv = ctx.maxval()
+        return None, ctx.nmin, ctx.rm.name, False, (int(mv.c), int(mv.exp))
     raise NotImplementedError('summary: context %s' % name)
 
 
